@@ -9,6 +9,8 @@ open Goat Goat.Addr
 
 /-! ## lastIdx -/
 
+/-! ## A. `strings.LastIndexByte` and inversion of the decision function -/
+
 theorem lastIdx_none {c : UInt8} : ∀ (bs : Bytes), lastIdx c bs = none → ∀ j : Nat, bs[j]? ≠ some c := by
   intro bs
   induction bs with
@@ -181,6 +183,8 @@ theorem decodeBytes_inv {pk : Bytes → Bool} {net : Net} {addr sc : Bytes}
             · cases hda
     · simp [hfor] at h
 
+/-! ## B. The bech32 checksum: linearity of the BCH polymod -/
+
 theorem tb_xor (x y : Bool) (g : Nat) : tb (x ^^ y) g = tb x g ^^^ tb y g := by
   cases x <;> cases y <;> simp [tb]
 
@@ -291,6 +295,8 @@ theorem polymod_checksum (hrp : Bytes) (data : List Nat) (ver : B32Version) :
     rw [this, ← hP, ← Nat.xor_assoc, Nat.xor_self, Nat.zero_xor]
   all_goals (rw [h31]; exact Nat.mod_lt _ (by decide))
 
+/-! ## C. ConvertBits as bit-stream regrouping: 5→8 ∘ 8→5 = id -/
+
 theorem bits5_val5 (a b c d e : Bool) : bits5 (val5 a b c d e) = [a, b, c, d, e] := by
   cases a <;> cases b <;> cases c <;> cases d <;> cases e <;> decide
 
@@ -338,6 +344,8 @@ theorem convert5to8_convert8to5 (prog : Bytes) : convert5to8 (convert8to5 prog) 
   simp only [h, regroup8_flatMap, regroup8_short k hk, List.append_nil, List.length_replicate]
   simp
   omega
+
+/-! ## D. bech32 decode ∘ encode, segwit decode ∘ encode, the whole function on segwit addresses -/
 
 theorem lastIdx_append (c : UInt8) (a b : Bytes) :
     lastIdx c (a ++ b) = match lastIdx c b with
@@ -591,6 +599,8 @@ theorem segwit_roundtrip_bytes (pk : Bytes → Bool) (net : Net) (ver : Nat) (pr
   · simp [hl, Address.isForNet, payToAddrScript]
   · rcases hver with rfl | rfl <;> simp [hl, Address.isForNet, payToAddrScript]
 
+/-! ## E. Lean strings: ASCII bytes survive `String.ofList` / `toUTF8` -/
+
 theorem utf8EncodeChar_ascii : ∀ n, n < 128 → String.utf8EncodeChar (Char.ofNat n) = [UInt8.ofNat n] := by
   decide +kernel
 
@@ -610,6 +620,8 @@ theorem utf8_bytesToString (bs : Bytes) (h : ∀ b ∈ bs, b < 128) : utf8 (byte
     rfl
 
 theorem utf8_hrpStr (net : Net) : utf8 net.hrpStr = net.hrp := by cases net <;> decide
+
+/-! ## F. Inversion of bech32 / segwit decoding; lengths of accepted segwit strings -/
 
 theorem toValues_length : ∀ (l : Bytes) (vs : List Nat), toValues l = some vs → vs.length = l.length := by
   intro l
@@ -1134,6 +1146,8 @@ theorem digitsLE_ofDigitsLE (base : Nat) (hb : 2 ≤ base) : ∀ (ds : List Nat)
       · have := div_le_fuel hb hf hne
         rw [hq] at this
         exact this
+
+/-! ## G. base58: decode ∘ encode = id, CheckDecode ∘ CheckEncode, first character, lengths -/
 
 theorem digits58LE_eq (fuel x : Nat) : digits58LE fuel x = digitsLE 58 fuel x := by
   induction fuel generalizing x with
@@ -1871,6 +1885,8 @@ theorem segwit_accepted_canonical {addr : Bytes} {one ver : Nat} {prog : Bytes}
   rw [List.append_assoc]
   exact hsplit
 
+/-! ### base58: encode ∘ decode = id on strings over the alphabet -/
+
 theorem b58Idx_inv : ∀ c : UInt8, ∀ d, b58Idx c = some d → d < 58 ∧ alphabetAt d = c := by
   apply forall_uint8
   decide +kernel
@@ -2134,6 +2150,68 @@ theorem decode_injective_except_p2wpkh {net : Net} {s1 s2 : String} {sc : Bytes}
   · exact h
   · exact absurd rfl hsc
 
+/-! ## 3c. Foreign networks: summary, and the networks that share parameters -/
+
+/-- **foreign_network_rejected**: for two of the four networks, (i) if their human-readable parts differ,
+    every segwit address (any witness version and program) encoded for `net'` is rejected on `net`;
+    (ii) if their P2PKH version bytes differ, every P2PKH and P2SH address of `net'` is rejected on
+    `net`.  (The hypotheses fail exactly for the pairs that share parameters: testnet3/signet share
+    both; regtest shares the version bytes 0x6f/0xc4 with them but not "bcrt".) -/
+theorem foreign_network_rejected (net net' : Net) :
+    (net'.hrp ≠ net.hrp → ∀ ver prog, decodeBtcAddress net (encodeSegwit net'.hrpStr ver prog) = none) ∧
+    (net'.p2pkhId ≠ net.p2pkhId → ∀ h : Bytes, h.length = 20 →
+      decodeBtcAddress net (encodeBase58Check net'.p2pkhId h) = none ∧
+      decodeBtcAddress net (encodeBase58Check net'.p2shId h) = none) :=
+  ⟨fun hne ver prog => foreign_network_rejected_segwit net net' hne ver prog,
+   fun hne h hl => foreign_network_rejected_base58 net net' h hl hne⟩
+
+/-- which pairs of networks are told apart by segwit addresses / by base58 addresses -/
+theorem network_parameters_distinct :
+    (∀ net net' : Net, net'.hrp ≠ net.hrp ↔
+      ¬ (net = net' ∨ (net = .testnet3 ∧ net' = .signet) ∨ (net = .signet ∧ net' = .testnet3))) ∧
+    (∀ net net' : Net, net'.p2pkhId ≠ net.p2pkhId ↔ ((net = .mainnet) ≠ (net' = .mainnet))) := by
+  constructor <;> intro net net' <;> cases net <;> cases net' <;> decide
+
+theorem isForNet_congr {net net' : Net} (h1 : net.hrp = net'.hrp) (h2 : net.p2pkhId = net'.p2pkhId)
+    (h3 : net.p2shId = net'.p2shId) (a : Address) : a.isForNet net = a.isForNet net' := by
+  cases a <;> simp [Address.isForNet, h1, h2, h3]
+
+/-- the function depends on the network only through its three parameters -/
+theorem decodeBytes_congr (pk : Bytes → Bool) {net net' : Net} (h1 : net.hrp = net'.hrp)
+    (h2 : net.p2pkhId = net'.p2pkhId) (h3 : net.p2shId = net'.p2shId) (addr : Bytes) :
+    decodeBytes pk net addr = decodeBytes pk net' addr := by
+  unfold decodeBytes decodeAddress
+  simp only [h2, h3, isForNet_congr h1 h2 h3]
+
+/-- testnet3 and signet accept exactly the same strings with the same scripts: a signet address is
+    NOT rejected on testnet3 and vice versa (same "tb", same version bytes). -/
+theorem testnet3_signet_same (s : String) : decodeBtcAddress .testnet3 s = decodeBtcAddress .signet s :=
+  decodeBytes_congr _ rfl rfl rfl _
+
+/-- regtest, testnet3 and signet share the base58 version bytes: a regtest P2PKH / P2SH address is
+    accepted on testnet3 (and so on) — base58check addresses do not tell these networks apart. -/
+theorem regtest_legacy_accepted_on_testnet3 (h : Bytes) (hl : h.length = 20) :
+    decodeBtcAddress .testnet3 (encodeBase58Check Net.regtest.p2pkhId h) =
+      some ([0x76, 0xa9, 0x14] ++ h ++ [0x88, 0xac]) ∧
+    decodeBtcAddress .testnet3 (encodeBase58Check Net.regtest.p2shId h) =
+      some ([0xa9, 0x14] ++ h ++ [0x87]) :=
+  ⟨roundtrip_p2pkh .testnet3 h hl, roundtrip_p2sh .testnet3 h hl⟩
+
+/-- Every accepted string carries the parameters of `net` itself: it is (up to case) a segwit encoding
+    under `net`'s human-readable part or a base58check encoding under one of `net`'s two version
+    bytes.  (Corollary of `accepted_canonical`; the most general form of "foreign ⇒ rejected".) -/
+theorem accepted_only_own_network {pk : Bytes → Bool} {net : Net} {addr sc : Bytes}
+    (h : decodeBytes pk net addr = some sc) :
+    (∃ ver prog, lowerBytes addr = encodeSegwitBytes net.hrp ver prog) ∨
+    (∃ payload, addr = encodeBase58CheckBytes net.p2pkhId payload ∨
+      addr = encodeBase58CheckBytes net.p2shId payload) := by
+  rcases accepted_canonical h with ⟨ver, prog, _, hc, _⟩ | ⟨payload, _, hc⟩
+  · exact Or.inl ⟨ver, prog, hc⟩
+  · right
+    rcases hc with ⟨hc, _⟩ | ⟨hc, _⟩
+    · exact ⟨payload, Or.inl hc⟩
+    · exact ⟨payload, Or.inr hc⟩
+
 /-! ## 6. Non-vacuity: well-known addresses
 
   The bech32 / bech32m vectors are evaluated by the kernel (`decide +kernel`, no extra axiom).  The
@@ -2218,3 +2296,80 @@ example : encodeSegwit "bc" 1 ((hx "79be667ef9dcbbac55a06295ce870b07029bfcdb2dce
     == "3J98t1WpEZ73CNmQviecrnyiWrnqRhWNLy"
 
 end Goat.C17A
+
+/-
+  ──────────────────────────────────────────────────────────────────────────────────────────────────
+  SUMMARY (C17, second half: withdrawal-address decoding).  Model: GoatModel/Addr.lean.
+  `decodeBtcAddress net s` = DecodeBtcAddress(s, net) with `none` for every error; `decodeBytes` is the
+  same function on the bytes of the string (Go strings need not be UTF-8), with the public-key parser
+  as a parameter.  Every theorem below is proved (no `sorry`, no extra axiom; `#print axioms` gives at
+  most propext, Classical.choice, Quot.sound).  Nothing is left as a hypothesis: the bech32 checksum
+  fact and the base58 bignum argument are both proved in full.
+
+  Main theorems
+   decode_indep_pubkeyParses   the result does not depend on whether a 33/65-byte hex string parses as
+                               a curve point (the parameter `pubkeyParses`) — it is rejected either way.
+   decode_sound (_bytes)       an accepted string yields exactly one of P2PKH `76 a9 14 <20> 88 ac`,
+                               P2SH `a9 14 <20> 87`, P2WPKH `00 14 <20>`, P2WSH `00 20 <32>`,
+                               P2TR `51 20 <32>` (`StdScript`) and never a pay-to-pubkey script (`IsP2PK`).
+   roundtrip_p2wpkh / _p2wsh / _p2tr
+                               for every network and every 20- / 32-byte program, the bech32 (v0) /
+                               bech32m (v1) address under the network's human-readable part decodes to
+                               `00 14 prog` / `00 20 prog` / `51 20 prog`.
+   roundtrip_p2pkh / _p2sh     for every network and 20-byte hash, the base58check address under the
+                               network's version byte decodes to `76 a9 14 h 88 ac` / `a9 14 h 87`.
+   polymod_checksum            THE bech32 checksum fact: the six symbols of writeBech32Checksum make
+                               bech32Polymod return the version constant, for every hrp and data
+                               (linearity of the BCH polymod over GF(2), `polyStep_xor`).
+   checksum_unique             conversely the six symbols are determined by hrp, data and constant.
+   convert5to8_convert8to5, convert8to5_convert5to8
+                               ConvertBits 8→5 (pad) and 5→8 (no pad) are mutually inverse.
+   base58Decode_encode, base58Encode_decode, checkDecode_encode, checkDecode_canonical
+                               base58 decode/encode are mutually inverse (positional-notation lemmas
+                               `ofDigitsLE_digitsLE`, `digitsLE_ofDigitsLE`); same with the checksum.
+   v1_20byte_decodes_to_v0_script
+                               QUIRK, true of the real function (checked on the Go code: mainnet
+                               "bc1p79tajyyu2dh27wgxnwelexakq2fk693hrcjnk7" → 0014f157…1637): a witness
+                               version 1 address with a 20-byte program is accepted and decoded to the
+                               version-0 script `00 14 prog`, not to the `51 14 prog` it denotes.  So
+                               "decoded to exactly the output script they encode" holds for the five
+                               standard types (round trips above) but NOT for every accepted string.
+   accepted_canonical          exact converse: every accepted string is (segwit: up to ASCII case) the
+                               canonical encoding, under the parameters of `net`, of the script it is
+                               decoded to — with the one exception above (20 bytes: version 0 or 1).
+   foreign_network_rejected (+ _segwit, _base58, foreign_segwit_rejected_bytes,
+   foreign_base58_rejected_bytes, simnet_segwit_rejected, accepted_only_own_network)
+                               segwit addresses under another registered human-readable part (incl.
+                               simnet "sb", which chaincfg registers) and base58check addresses with a
+                               version byte other than the network's two are rejected.
+   testnet3_signet_same, network_parameters_distinct, regtest_legacy_accepted_on_testnet3
+                               testnet3 and signet share "tb", 0x6f, 0xc4: each accepts the other's
+                               addresses (the function cannot tell them apart); regtest shares the
+                               base58 version bytes with them (its legacy addresses are accepted
+                               there and vice versa) but not "bcrt".
+   p2pk_rejected (_bytes)      every string of 66 or 130 bytes is rejected, for every `pubkeyParses`:
+                               accepted strings have 42, 44, 62 or 64 bytes (segwit) or at most 50
+                               (base58check; in fact ≤ 35), so no such string decodes any other way.
+   decode_not_injective_on_types
+                               full injectivity up to case is FALSE (witness: the quirk pair).
+   decode_injective_on_types_partial, decode_injective_except_p2wpkh
+                               exact statement: same script ⇒ same string (base58check), or same up to
+                               ASCII case (bech32 all-upper), or the v0/v1 pair of one 20-byte program.
+   examples / #guard           BIP-173 / BIP-350 vectors, regtest, P2TR, upper / mixed case, foreign
+                               network, unsupported versions, hex public keys (kernel `decide`);
+                               1BvBMSEY…, 3J98t1Wp…, m… (evaluated: they need SHA-256).
+
+  Modelled: the order of the checks in btcutil.DecodeAddress (last '1' at index > 1 and registered
+  prefix — main, testnet3, regtest, simnet — then 66/130-character hex, then base58check), bech32
+  character / case / length / separator rules, both checksum constants, witness-version and
+  program-length rules and the mapping to address types, IsForNet, the P2PK rejection, PayToAddrScript.
+  Validated against the real function on 9134 strings (3134 from three kdrive `addr` traces, 6000 from a
+  scratch driver covering witness versions 0..17, program lengths 0..41, both checksums, non-zero
+  padding, "sb"/upper/mixed-case prefixes, extra '1's, non-ASCII and invalid UTF-8, control
+  characters, 66/130-character strings of several kinds, leading '1's, non-alphabet characters): 0
+  mismatches.  Left out: elliptic-curve parsing of hex public keys (a parameter, shown irrelevant);
+  SHA-256 is the project's `Goat.Sha256.dsha256`, never unfolded by a proof (the round trips hold for
+  any function in its place); ConvertBits is modelled as bit-stream regrouping rather than by its
+  shift loop; `strings.ToLower` by ASCII lower-casing (justified in GoatModel/Addr.lean).
+  ──────────────────────────────────────────────────────────────────────────────────────────────────
+-/
